@@ -59,8 +59,19 @@ LookupEntries(es, key) ==
 
 MapValues(m) == [i \in 1..Len(Pv(m)) |-> Pv(m)[i][2]]
 
-\* Deep equality as datamodel.DeepEqual: same kind and same content.
-SameValue(a, b) == K(a) = K(b) /\ a = b
+\* Deep equality of IPLD values: same kind and same content.  Lists are ordered; MAPS ARE NOT: two maps are equal
+\* when they have the same keys with equal values, whatever the order of their entries (the entry order of a map is
+\* an artefact of who built or encoded it: DAG-CBOR sorts keys length-first, DAG-JSON and Go callers do not).
+RECURSIVE SameValue(_, _)
+SameValue(a, b) ==
+  IF K(a) # K(b) THEN FALSE
+  ELSE CASE K(a) = "list" -> /\ Len(Pv(a)) = Len(Pv(b))
+                             /\ \A i \in 1..Len(Pv(a)) : SameValue(Pv(a)[i], Pv(b)[i])
+         [] K(a) = "map"  -> /\ Len(Pv(a)) = Len(Pv(b))
+                             /\ \A i \in 1..Len(Pv(a)) :
+                                   LET other == LookupEntries(Pv(b), Pv(a)[i][1]) IN
+                                   other # NoValue /\ SameValue(Pv(a)[i][2], other)
+         [] OTHER -> a = b
 
 \* An equality test whose answer the property leaves open: NaN is involved.
 RECURSIVE HasNaN(_)
